@@ -432,7 +432,7 @@ class mp_dss_opt (mptcp_opt):
         o.dsn = struct.unpack_from("!I", buf, off)[0]
       else:
         o.dsn = struct.unpack_from("!Q", buf, off)[0]
-      off += o.ack_length
+      off += o.dsn_length
 
       o.seq,o.length,o.csum = struct.unpack_from("!IHH", buf, off)
       off += 4 + 2 + 2
@@ -458,9 +458,9 @@ class mp_dss_opt (mptcp_opt):
 
     if o.has_dsn:
       if o.dsn_length == 4:
-        r += struct.unpack_from("!I", o.dsn)
+        r += struct.pack("!I", o.dsn)
       else:
-        r += struct.unpack_from("!Q", o.dsn)
+        r += struct.pack("!Q", o.dsn)
 
       #TODO: Compute csum?
       r += struct.pack("!IHH", o.seq,o.length,o.csum)
